@@ -1,11 +1,13 @@
 """C11 - whitespace-only source edits in offset mode keep every node on its text."""
-from contracts import k_offset
+from contracts import k_offset, k_index
 from pyvc.contract import verify_all
 from pyvc import native
 
 
 def run(rep, tier, seed):
-    verify_all(rep, k_offset.specs('C11') + k_offset.specs_text('C11') + k_offset.specs_entry('C11'))
+    clip = [s for s in k_index.specs('C11') if s.name == 'clip_src_loc']   # put_src clips its rectangle first
+    verify_all(rep, k_offset.specs('C11') + k_offset.specs_text('C11') + k_offset.specs_entry('C11') + clip)
+    k_offset.code_as_lines_finite(rep, 'C11')
     sec = native.run('b_raw', 'main', {'props': ['C11'], 'tier': tier, 'seed': seed, 'ops': ['offset']})
     sec['native_entry'] = ('b_raw', 'replay')
     rep.bounded(sec)
